@@ -13,6 +13,8 @@ import (
 	"encoding/binary"
 	"fmt"
 	"io"
+	"runtime"
+	"runtime/debug"
 	"strings"
 	"sync/atomic"
 	"time"
@@ -106,6 +108,9 @@ func (s *sim) archiveOnce(burst func(gap int), note string) {
 	var groups [][]string // hops recorded per gap
 	mark := len(w.Hops)
 	srv.SetHook("archive.file", func() {
+		if atomic.LoadInt32(&s.nestedArchive) != 0 {
+			return // yield points of a second download running inside a gap of this one
+		}
 		g := int(atomic.AddInt32(&gap, 1)) - 1
 		before := len(w.Hops)
 		if burst != nil {
@@ -407,6 +412,70 @@ func archiveTour(res *core.Result, r *core.RNG, preRegistered bool) (*sim, error
 	return s, nil
 }
 
+// overlapping downloads right after a failed one: an archive request on a server that still waits for
+// its GCA is answered with an error; then the GCA registers, a device reports, and pairs of downloads
+// overlap (the second runs completely while the first sits between two files).  Every archive must be
+// what a lone download gives.
+func archiveOverlapTour(res *core.Result, r *core.RNG) (*sim, error) {
+	s, err := newSim(res, r, "archive-overlap", 500, true)
+	if err != nil {
+		return nil, err
+	}
+	w := s.w
+	window := 70 * time.Millisecond
+	// one scheduler thread and no garbage collection while this runs: which recycled object a pooled
+	// allocator hands out depends on both, and the point is that two requests meet
+	defer runtime.GOMAXPROCS(runtime.GOMAXPROCS(1))
+	defer debug.SetGCPercent(debug.SetGCPercent(-1))
+	s.archiveOnce(nil, "unregistered")
+	s.register("valid")
+	d := s.addDevice(1 << 20)
+	if d == nil {
+		return s, nil
+	}
+	for k := 0; k < 100; k++ {
+		s.send(d, w.Now-uint32(k)-1, 600+uint64(k))
+	}
+	for round := 0; round < 4; round++ {
+		time.Sleep(window)
+		nested := false
+		gapAt := 1 + round%4
+		s.archiveOnce(func(g int) {
+			if g != gapAt || nested {
+				return
+			}
+			nested = true
+			// the files grow between the part the outer download has copied and the inner download
+			if nd := s.addDevice(1 << 20); nd != nil {
+				s.send(nd, w.Now, 900+uint64(round))
+			}
+			for k := 0; k < 5; k++ {
+				s.send(d, w.Now+uint32(1+5*round+k), 800+uint64(k))
+			}
+			atomic.StoreInt32(&s.nestedArchive, 1)
+			rr := w.Raw("GET", "/api/v1/archive", nil)
+			atomic.StoreInt32(&s.nestedArchive, 0)
+			res.Count("archive.overlapping-downloads")
+			if rr.Status != 200 {
+				return
+			}
+			files, _, err := unzip(rr.Body)
+			if err != nil {
+				s.fail("of two overlapping downloads the inner one is not a readable zip: "+err.Error(), "c14-zip")
+				return
+			}
+			for _, n := range []string{"equipment-authorizations.dat", "equipment-reports.dat", "allDeviceStats.dat"} {
+				fin, _ := readFileOr(w.Dir, n)
+				if !bytes.HasPrefix(fin, files[n]) {
+					s.fail("of two overlapping downloads the inner one holds a "+n+" that is not a prefix of the file on disk", "c14-prefix:"+n)
+				}
+			}
+		}, "overlap")
+	}
+	time.Sleep(window)
+	return s, nil
+}
+
 func archiveWorker(res *core.Result, r *core.RNG, tier, out string) error {
 	var items []string
 	n := 1
@@ -427,9 +496,14 @@ func archiveWorker(res *core.Result, r *core.RNG, tier, out string) error {
 			}
 			s.finish(&items)
 		}
+		so, err := archiveOverlapTour(res, r.Fork())
+		if err != nil {
+			return err
+		}
+		so.finish(&items)
 	}
-	res.Required = []string{"archive.request", "archive.tour", "archive.limiter-sliding"}
-	res.Rule = "every (gap between two archived files x write burst {new device + first report, registration + first device, rotation}) combination, quiet archives, request bursts against the limiter; zip opened with archive/zip and checked with the real Verify; non-trivial = archive taken with a burst in a gap; distinct by full history"
+	res.Required = []string{"archive.request", "archive.tour", "archive.limiter-sliding", "archive.overlapping-downloads"}
+	res.Rule = "every (gap between two archived files x write burst {new device + first report, registration + first device, rotation}) combination, quiet archives, request bursts against the limiter (burst and sliding-window pattern), pairs of overlapping downloads right after a refused one; zip opened with archive/zip and checked with the real Verify; non-trivial = archive taken with a burst in a gap; distinct by full history"
 	return writeServerCases(res, out, "archive", items)
 }
 
